@@ -195,7 +195,7 @@ pub fn run(ctx: &Ctx, known: &[Known]) -> Report {
     let stats = run_generated(ctx, "C07", "gen", &strategy, &check, cases, known);
     Report {
         id: "C07".into(),
-        rule: "two kinds of cases: (1) one step from exact data of an autonomous linear closed-form problem with the step interpolant probed at 19 interior thetas, step refined five times (factor 2, sqrt 2 for DOPRI5/DOP853), slope of the max-over-theta error fitted on the three smallest usable steps (RK4, RK23, DOPRI5, DOP853, Radau with fully converged Newton; both signs of h); (2) full solve_ivp runs of all six methods on general (non-autonomous, nonlinear, mixed) closed-form problems with dense output: Solution::sol at 1..4 generated interior positions of every accepted step against the exact solution (steps with h*rate > 1 skipped), allowed 10 x the larger error of the two neighbouring step ends + the C01 bound 50*kappa*naccpt*tolscale (RK4: + |y|(rate*h)^4) + rounding floor. RK4 uses a step that does not divide the span. Non-trivial = a verdict from >= 3 usable refinements, or a run with >= 3 accepted steps. Distinct = distinct canonical JSON.".into(),
+        rule: "two kinds of cases: (1) one step from exact data of an autonomous linear closed-form problem with the step interpolant probed at 19 interior thetas, step refined five times (factor 2, sqrt 2 for DOPRI5/DOP853), slope of the max-over-theta error fitted on the three smallest usable steps (RK4, RK23, DOPRI5, DOP853, Radau with fully converged Newton; both signs of h); (2) full solve_ivp runs of all six methods on general (non-autonomous, nonlinear, mixed) closed-form problems with dense output: Solution::sol at 1..4 generated interior positions of every accepted step against the exact solution (steps with h*rate > 1 skipped), allowed 10 x the larger error of the two neighbouring step ends + the C01 bound 100*kappa*naccpt*tolscale (RK4: + |y|(rate*h)^4) + rounding floor. RK4 uses a step that does not divide the span. Non-trivial = a verdict from >= 3 usable refinements, or a run with >= 3 accepted steps. Distinct = distinct canonical JSON.".into(),
         assumptions: vec!["slope thresholds RK4/RK23/Radau 3.5, DOPRI5 4.3, DOP853 6.5".into(), "the interior allowance is relative to the neighbouring step-end errors, so algorithm-inherent step-end inaccuracies (C01 finding K1) do not raise an alarm here".into()],
         min_nontrivial_frac: 0.5,
         stats,
